@@ -12,7 +12,7 @@ import os
 from fractions import Fraction
 
 from ..core import env, par, shrink
-from ..core.result import Failure, Report
+from ..core.result import Failure, Report, robust
 
 ID = "C07"
 NAN = "nan"
@@ -150,6 +150,37 @@ def check_table(t, names, with_summary=True):
     return bad
 
 
+def check_history(t, names):
+    """The same dict object is evaluated, changed in place, and evaluated again: every answer must be the one for the
+    table as it is *now* (nothing may be remembered per object identity)."""
+    from codebasin import report
+
+    bad = []
+    d = dict(t)
+    for step in range(3):
+        for a in names:
+            for b in names:
+                got = call(report.distance, d, a, b)
+                exp = r_dist(d, a, b)
+                if isinstance(got, tuple) or not same(got, exp, zero_ok=(a == b)):
+                    bad.append((f"history step {step}: distance({a},{b})", str(exp), repr(got)))
+        for label, fn, ref in (("divergence", report.divergence, r_div), ("coverage", report.coverage, r_cov), ("average_coverage", report.average_coverage, r_avg)):
+            got = call(fn, d)
+            if isinstance(got, tuple) or not same(got, ref(d)):
+                bad.append((f"history step {step}: {label}", str(ref(d)), repr(got)))
+        if bad:
+            break
+        # in-place edits: bump one count, then drop / add a key
+        keys = sorted(d, key=lambda k: sorted(k))
+        if step == 0 and keys:
+            d[keys[0]] = d[keys[0]] + 7
+        elif step == 1:
+            if len(keys) > 1:
+                del d[keys[-1]]
+            d[frozenset(names[:2])] = d.get(frozenset(names[:2]), 0) + 2
+    return bad
+
+
 def tkey(t):
     return sorted((sorted(k), v) for k, v in t.items())
 
@@ -186,6 +217,7 @@ def _work(arg):
     n = 0
     nontrivial = 0
     fails = []
+    hist_fails = []
     outcomes = set()
     choices = [None] + list(counts)
     for idx in range(lo, hi):
@@ -202,14 +234,21 @@ def _work(arg):
         outcomes.add((str(r_div(t)), str(r_cov(t))))
         if check_table(t, names, with_summary=(idx % 7 == 0)):
             fails.append(t)
+        elif idx % 5 == 0:
+            hb = check_history(t, names)
+            if hb:
+                hist_fails.append((t, hb[0]))
     out = []
     seen = set()
     for t in fails:
-        f = mk_failure(t, names)
+        f = robust(mk_failure, {"table": [[k, v] for k, v in tkey(t)]}, t, names)
         if f and f.key() not in seen:
             seen.add(f.key())
             out.append(f)
-    return n, nontrivial, len(fails), out, len(outcomes)
+    for t, b in hist_fails[:3]:
+        out.append(Failure("history", {"table": [[sorted(k), v] for k, v in tkey(t)], "call": b[0]}, expected=b[1], observed=b[2],
+                           note="the same dict object, edited in place between evaluations"))
+    return n, nontrivial, len(fails) + len(hist_fails), out, len(outcomes)
 
 
 def _clustering(arg):
@@ -311,5 +350,7 @@ def replay(witness, kind=None):
     while len(names) < 2:
         names.append("zz")
     bad = check_table(t, names)
+    if str(witness.get("call", "")).startswith("history"):
+        bad = check_history(t, names)
     hit = [b for b in bad if b[0] == witness.get("call")] or bad
     return {"violates": bool(hit), "detail": hit[:5]}
